@@ -191,12 +191,15 @@ theorem srcRead_len (s : Src) (req : Nat) : (s.read req).1.length ≤ req := by
   unfold Src.read
   simp only
   have hg := grant_le s req
-  by_cases h1 : s.grant req = 0 ∧ s.zeroFill = true
-  · simp only [h1, and_self, ↓reduceIte]; simp
-  · simp only [h1, ↓reduceIte]
-    by_cases h2 : s.grant req > s.remaining
-    · simp only [h2, ↓reduceIte]; simp
-    · simp only [h2, ↓reduceIte]; simp; omega
+  by_cases h2 : s.grant req > s.remaining
+  · simp only [h2, ↓reduceIte]
+    by_cases hz : s.zeroFill = true
+    · simp [hz]
+    · simp [hz]
+  · simp only [h2, ↓reduceIte]
+    by_cases h1 : s.grant req = 0 ∧ s.zeroFill = true
+    · simp only [h1, and_self, ↓reduceIte]; simp
+    · simp only [h1, ↓reduceIte]; simp; omega
 
 theorem read_safe (s : Src) (_h : Inv s) :
     Safe (read s) (fun r => Inv r.2 ∧ r.1.length ≤ Gen.nullMaxRead) := by
